@@ -5,17 +5,17 @@ here = os.path.dirname(os.path.dirname(os.path.abspath(__file__)))
 
 CLAIMS = {
  "C05": dict(
-   text="Structural necessary conditions of the cache protocol, decided on every path of the SSA control-flow graph of the current sources: data-before-index, verify-before-commit, no truncating open, validated reads, no bypass of GetFile, miss implies recompute. This is a sound 'shape' check that holds for all crash points of Put and all damaged files at once; it is not a proof of the behaviour (no interleavings, no file-system semantics).",
+   text="Structural necessary conditions of the cache protocol, decided on every path of the SSA control-flow graph of the current sources: data-before-index, verify-before-commit, no truncating open, validated reads, no bypass of GetFile, miss implies recompute. This is a sound 'shape' check that holds for all crash points of Put and all damaged files at once; it is not a proof of the behaviour (no interleavings, no file-system semantics). Also decided: put reports success only behind copyFile's nil-error edge (an index entry alone does not prove the data file is complete).",
    ref="§4 C05",
    note="Trusts go/ssa's CFG and go/types; assumes POSIX-like semantics of open/write listed in the evidence assumptions. Does not cover concurrent trim, GOCACHEPROG back ends, fsync/power loss.",
    technique="custom SSA path/guard analysis (must-pass-through-edge, value-origin slicing, who-may-call) over go/packages+go/ssa"),
  "C09": dict(
-   text="Structural necessary conditions for atomic pattern bindings, decided on all paths of the matcher's SSA: every backtracking point is bracketed by push/pop (and merge on success), the parser's bit index reaches the returned Binding for both spellings, set/pop/merge keep State and the frame masks consistent (merge hands its mask to the enclosing frame), Parse refuses more names than the mask has bits, names are bound only on success. Not a proof that recalled subtrees are structurally equal on all trees.",
+   text="Structural necessary conditions for atomic pattern bindings, decided on all paths of the matcher's SSA: every backtracking point is bracketed by push/pop (and merge on success), the parser's bit index reaches the returned Binding for both spellings, set/pop/merge keep State and the frame masks consistent (merge hands its mask to the enclosing frame), Parse refuses more names than the mask has bits, names are bound only on success. Not a proof that recalled subtrees are structurally equal on all trees. Also decided: the pattern returned by Parse owns its index-to-name table (fresh storage, never the parser's own table, which the next Parse on the same parser rewrites).",
    ref="§4 C09",
    note="Trusts go/ssa; a failure that is passed unchanged to the caller is assumed to be handled by the caller's frame (which is itself checked). One exemption (Symbol.Match's alias loop) with its reason is in the checker.",
    technique="custom SSA path analysis (dominating push, pop on every failing path) + forward/backward value-flow"),
  "C20": dict(
-   text="Decides the wiring of version-restricted reporting: role of each Options field derived from report.Report's comparisons vs. the constructor that writes it; the -go flag's value-origin chain down to types.Config.GoVersion and the cache key; FileVersions enabled; and the complete decision table of code.StdlibVersion by abstract evaluation over all orderings it can distinguish (exhaustive for that function).",
+   text="Decides the wiring of version-restricted reporting: role of each Options field derived from report.Report's comparisons vs. the constructor that writes it; the -go flag's value-origin chain down to types.Config.GoVersion and the cache key; FileVersions enabled; and the complete decision table of code.StdlibVersion by abstract evaluation over all orderings it can distinguish (exhaustive for that function). Also decided: StdlibVersion takes a file's own version from the raw //go:build tag (ast.File.GoVersion), not from the type checker's clamped FileVersions.",
    ref="§4 C20",
    note="Trusts go/version.Compare's documented meaning and go/types' FileVersions; does not decide what bounds individual checks pass.",
    technique="SSA value-origin (def-use) analysis + finite abstract evaluation of a comparison-only function"),
@@ -30,57 +30,57 @@ CLAIMS = {
    note="Assumes monotone transfer functions; trusts constant evaluation by go/types. The generic MapLattice laws for arbitrary element lattices are decided only structurally (keys of both operands, element merge on common keys, identity shortcut).",
    technique="constant-table evaluation from the AST with exhaustive law enumeration + SSA path rules (store ⇒ enqueue on all paths, guard edges)"),
  "C12": dict(
-   text="Decides that the sort comparator refines the de-duplication key before the build name (key read from descriptor(), chain read from the comparator's AST), that mergeRuns covers every merge strategy and vetoes an 'all' problem only for runs that checked its file and lack it, over the whole runs slice, and that -f binary normalises exactly the fields the merge keys on. Structural necessary conditions; commutativity/idempotence over multisets of runs follow only informally.",
+   text="Decides that the sort comparator refines the de-duplication key before the build name (key read from descriptor(), chain read from the comparator's AST), that mergeRuns covers every merge strategy and vetoes an 'all' problem only for runs that checked its file and lack it, over the whole runs slice, and that -f binary normalises exactly the fields the merge keys on. Structural necessary conditions; commutativity/idempotence over multisets of runs follow only informally. Also decided: the reader shared by the per-run gob decoders of -merge input implements io.ByteReader (otherwise each decoder buffers ahead privately and later runs of a stream are lost).",
    ref="§4 C12",
    note="Comparator idioms recognised: if a.f != b.f { return a.f < b.f } chains and cmp.Compare chains; any other idiom makes the rule report 'undecided' (fails) instead of passing.",
    technique="AST symbolic extraction of comparator/equality field chains + SSA guard-edge rules"),
  "C04": dict(
-   text="Decides cache-key completeness as an effect-set inclusion: every runner/loader field read on the miss path is in the key, covered by a hashed field through a checked edge, or exempt with a reason in tables/c04_inputs.tsv; every PackageSpec field the loader reads is hashed by computeHash on both branches; ordering of hashed lists is fixed by sorting; analysis code reaches ambient inputs (env, files, clock) only at frozen call sites; miss-only result fields are restored on hits; the salt comes from the executable. A necessary condition for transparency (an input outside the key gives stale hits), not a proof that results are a function of the key.",
+   text="Decides cache-key completeness as an effect-set inclusion: every runner/loader field read on the miss path is in the key, covered by a hashed field through a checked edge, or exempt with a reason in tables/c04_inputs.tsv; every PackageSpec field the loader reads is hashed by computeHash on both branches; ordering of hashed lists is fixed by sorting; analysis code reaches ambient inputs (env, files, clock) only at frozen call sites; miss-only result fields are restored on hits; the salt comes from the executable. A necessary condition for transparency (an input outside the key gives stale hits), not a proof that results are a function of the key. Also decided: nothing on the runner's miss path reads Config.Checks; every other Config field is written into the key; user-provided configuration lists are rendered injectively (%#v/%q, never joined with a separator).",
    ref="§4 C04",
    note="Call graph is CHA (quick) / VTA (thorough) restricted to packages linked into cmd/staticcheck; std-lib bodies are opaque; assumes the environment is fixed between compared runs as the property states; exemptions are one line per field/call site with a reason.",
    technique="interprocedural field effect sets over the call graph + value-origin slices of hash writes + who-may-call tables"),
  "C06": dict(
-   text="Structural necessary conditions of deterministic, race-free linting, decided over the whole module: worker-reachable writes to package-level variables are lock-held; the dependency counter/statistics are atomic-only; handlers write only their own action and never the graph shape; in genericHandle all writes precede the releasing decrement and enqueueing happens only on the decrement reaching zero; every map-ordered slice in the output pipeline is sorted before use or listed with a reason; the print comparator is total over printed and de-duplicated fields. Not a race detector: it decides ownership/ordering shape, not all interleavings.",
+   text="Structural necessary conditions of deterministic, race-free linting, decided over the whole module: worker-reachable writes to package-level variables are lock-held; the dependency counter/statistics are atomic-only; handlers write only their own action and never the graph shape; in genericHandle all writes precede the releasing decrement and enqueueing happens only on the decrement reaching zero; every map-ordered slice in the output pipeline is sorted before use or listed with a reason; the print comparator is total over printed and de-duplicated fields. Not a race detector: it decides ownership/ordering shape, not all interleavings. Also decided: filterIgnored tests every directive against every problem, so its outcome does not depend on the map-iteration order in which directives arrive.",
    ref="§4 C06",
    note="Call graph VTA∘CHA with callback over-approximation, restricted to code linked into cmd/staticcheck; Go memory model for atomics/channels assumed; exemptions one per symbol in tables/c06_order.tsv. Observation (not decided): -f binary bytes differ between a cold and a warm run because encoding/gob assigns type ids process-globally; decoded content is identical.",
    technique="lock-held dominance + happens-before path queries on SSA, map-order taint with sort sanitisers, comparator-chain extraction"),
  "C18": dict(
-   text="Decides the locking/once-only shape that parallel IR building relies on: guarded-by pairs are derived from the struct declarations and every guarded access is lock-held (here or at all call sites); Package.build runs only via buildOnce.Do; each memo table of shared functions is filled only on its own miss edge with the freshly created, task-owned, enqueued function and a hit registers a wait; every builder is iterated on all paths and iterate marks done before waiting; Function.build is cleared only by done. Necessary conditions for 'created exactly once, fully built when Build returns, race-free'; it does not compare IR across builds.",
+   text="Decides the locking/once-only shape that parallel IR building relies on: guarded-by pairs are derived from the struct declarations and every guarded access is lock-held (here or at all call sites); Package.build runs only via buildOnce.Do; each memo table of shared functions is filled only on its own miss edge with the freshly created, task-owned, enqueued function and a hit registers a wait; every builder is iterated on all paths and iterate marks done before waiting; Function.build is cleared only by done. Necessary conditions for 'created exactly once, fully built when Build returns, race-free'; it does not compare IR across builds. Also decided: lookup and insertion of a memo are one critical section (the mutex held at the lookup is not released before the insertion).",
    ref="§4 C18",
    note="Lock identity is by mutex field name within a function (path-insensitive about which object); Go memory model assumed; the task-graph wait algorithm itself is not decided.",
    technique="guarded-by inference from declarations + lock-held dominance + guard-edge/must-pass path rules on SSA"),
  "C10": dict(
-   text="Decides the guard structure of ignore directives on every path: match requires file (and line) equality and a case-folded glob match; reason-less directives never become ignores (linter and U1000) and are errors in the compile category; 'ignored' is set only on the true edge of match; the unmatched-directive problem only for unmatched line ignores naming an enabled check, never U1000; directive and problem positions come from the same position function and file set; U1000 uses the same name predicate as the linter. Structural necessary conditions; comment attachment (ast.CommentMap) and glob semantics are trusted.",
+   text="Decides the guard structure of ignore directives on every path: match requires file (and line) equality and a case-folded glob match; reason-less directives never become ignores (linter and U1000) and are errors in the compile category; 'ignored' is set only on the true edge of match; the unmatched-directive problem only for unmatched line ignores naming an enabled check, never U1000; directive and problem positions come from the same position function and file set; U1000 uses the same name predicate as the linter. Structural necessary conditions; comment attachment (ast.CommentMap) and glob semantics are trusted. Also decided: directives are recognised by looking at every comment of a comment group (never a fixed position of the group), and filterIgnored tests every directive against every problem.",
    ref="§4 C10",
    note="Trusts path/filepath.Match and ast.NewCommentMap; 'same predicate' is decided as 'filepath.Match on lower-cased operands' at both sites.",
    technique="guard-edge (must-pass-through-edge) analysis and value-origin checks on SSA"),
  "C07": dict(
-   text="Decides one necessary clause of U1000's deletion safety for all programs at once: every child of every syntax node kind handled by the use-graph walkers that can hold an identifier is visited (91 walker × node-type × field pairs derived from go/ast's struct definitions), and unknown kinds panic instead of being skipped. This rule found the embedded-generic-type-argument defect. It does not decide the usage rules themselves, nor that every zero-reference object is reported.",
+   text="Decides one necessary clause of U1000's deletion safety for all programs at once: every child of every syntax node kind handled by the use-graph walkers that can hold an identifier is visited (91 walker × node-type × field pairs derived from go/ast's struct definitions), and unknown kinds panic instead of being skipped. This rule found the embedded-generic-type-argument defect. It does not decide the usage rules themselves, nor that every zero-reference object is reported. Also decided: records found in types.Info.Selections are handed to the function that marks the implicit embedded-field path on every path (method expressions included), and that function marks every field of the path and the selected object.",
    ref="§4 C07",
    note="'Visited' is decided as 'the field is mentioned in the clause or in the graph method the node is delegated to'; go/ast's field types are the oracle for where identifiers can occur. Two exemptions (labels) with reasons are in the checker.",
    technique="type-checked AST child-coverage analysis of type-switch clauses"),
  "C17": dict(
-   text="Decides structural necessary conditions of order independence and variant merging: map-loop bodies in package unused affect the graph only through monotone accumulators that never shrink; U1000 verdicts are emitted only after all results were merged, only under not-used-in-any-variant, 'used' is never overwritten and is recorded for every variant; used/unused keys are built from the same origins. Does not decide monotonicity of the usage rules under added references.",
+   text="Decides structural necessary conditions of order independence and variant merging: map-loop bodies in package unused affect the graph only through monotone accumulators that never shrink; U1000 verdicts are emitted only after all results were merged, only under not-used-in-any-variant, 'used' is never overwritten and is recorded for every variant; used/unused keys are built from the same origins. Does not decide monotonicity of the usage rules under added references. Also decided: no map in package unused is keyed by the printed form of a go/types type or object (not injective: generic interfaces with equally named type parameters print alike).",
    ref="§4 C17",
    note="Assumes reachability over an edge set is insertion-order independent; effect sets are closed over static callees within package unused.",
    technique="field effect sets + map-loop body analysis + guard-edge rules on SSA"),
  "C03": dict(
-   text="Decides, for all programs at once, that no 'unhandled kind' panic is reachable for the closed kinds the code switches on: 42 must-panic type switches are decided against the full universe of implementors (IR instructions constructed by go/ir, go/ast statement/expression/declaration kinds, go/types types), against the inspector filter that feeds them, or against a frozen reviewed case set; builtin-name switches against go/types' universe; unchecked assertions in inspector callbacks against their filter; the type checker's Go version is never pinned. Adding an IR instruction kind, deleting a case or widening a filter is reported with the switch and the kind. Does not decide arbitrary panics or analyzer errors.",
+   text="Decides, for all programs at once, that no 'unhandled kind' panic is reachable for the closed kinds the code switches on: 42 must-panic type switches are decided against the full universe of implementors (IR instructions constructed by go/ir, go/ast statement/expression/declaration kinds, go/types types), against the inspector filter that feeds them, or against a frozen reviewed case set; builtin-name switches against go/types' universe; unchecked assertions in inspector callbacks against their filter; the type checker's Go version is never pinned. Adding an IR instruction kind, deleting a case or widening a filter is reported with the switch and the kind. Does not decide arbitrary panics or analyzer errors. Also decided: lookups in go/ir's object-keyed tables use origin objects when the key comes out of a method set or selection; switches over operator tokens with a panicking default are complete for the operator universe of their source (an IR comparison handled only for == and != must be guarded by (*ir.Const).IsNil) — this found the crash on `x < zero` for a type parameter's zero value.",
    ref="§4 C03",
    note="Case-set sites (universe from grammar/type-checker invariants, one reviewed line each in tables/c03_switches.tsv) only detect the loss of a case; a new must-panic switch must be classified before the check passes (fails loudly rather than silently).",
    technique="exhaustiveness analysis of type/string switches against universes computed from go/types, inspector filters and reviewed tables"),
  "C08": dict(
-   text="Decides that the three pre-filters are over-approximations by construction: entry-node table vs. node kinds (evaluated from the table literal), classification of every matcher kind, negative/optional polarity in collectSymbols, CouldMatchAny's coverage of collectSymbols' result kinds, the conditions under which the call index replaces the traversal, and — over all 90 pattern constants of the module, read with a small reader of the pattern language — that every symbol the package rejection requires is resolvable by the index. Necessary conditions; equivalence of the two search strategies on all programs (third-package aliases, wrapper nodes) is not decided.",
+   text="Decides that the three pre-filters are over-approximations by construction: entry-node table vs. node kinds (evaluated from the table literal), classification of every matcher kind, negative/optional polarity in collectSymbols, CouldMatchAny's coverage of collectSymbols' result kinds, the conditions under which the call index replaces the traversal, and — over all 90 pattern constants of the module, read with a small reader of the pattern language — that every symbol the package rejection requires is resolvable by the index. Necessary conditions; equivalence of the two search strategies on all programs (third-package aliases, wrapper nodes) is not decided. Also decided: the type index's package table, from which every symbol lookup starts, covers the package of every used object (methods and fields of packages that are not imported directly), not only the imports.",
    ref="§4 C08",
    note="The pattern reader re-implements only the requirement algebra (And/Or/Any) documented for SymbolsPattern; typeindex is trusted to find all direct references.",
    technique="table-literal evaluation + case-set and value-origin analysis + static evaluation of all pattern constants"),
  "C11": dict(
-   text="Decides the structural part of selection/config/exit-status/format agreement: field-by-field agreement of Config with Merge (receiver-first, same field) and Load; the 'inherit' splice position; the outermost-first collection/reversal/left-fold of configuration files and command-line-over-package merge direction; the guards of the exit status (counted only when not ignored and in the fail set or compile/config/staticcheck; never 1 for SARIF); that no formatter filters and all share one list; that -checks and -fail use one resolver over one universe. The left-to-right algebra of check lists (globs, negation) over all inputs is string semantics and is not decided.",
+   text="Decides the structural part of selection/config/exit-status/format agreement: field-by-field agreement of Config with Merge (receiver-first, same field) and Load; the 'inherit' splice position; the outermost-first collection/reversal/left-fold of configuration files and command-line-over-package merge direction; the guards of the exit status (counted only when not ignored and in the fail set or compile/config/staticcheck; never 1 for SARIF); that no formatter filters and all share one list; that -checks and -fail use one resolver over one universe. The left-to-right algebra of check lists (globs, negation) over all inputs is string semantics and is not decided. Also decided: nothing the runner executes when it has to analyse a package — including function values handed to it — reads the check selection (all analyzers always run; selection is applied afterwards).",
    ref="§4 C11",
    note="Narrow: most regressions inside filterAnalyzerNames' string handling are out of reach of these rules; the TOML decoder is trusted.",
    technique="field-exhaustiveness cross-check (types vs. AST/SSA) + guard-edge and value-origin rules"),
  "C14": dict(
-   text="Exactness of Lengauer–Tarjan on all CFGs is not decided. Decided: the dominator tree is built on the final CFG (nothing reachable from the calls after buildDomTree writes Preds/Succs/Index/Blocks; optimizeBlocks precedes it; no exported function statically reaches a CFG mutator), dominance fields have a single writer family, and the pre/post numbering order in numberDomTree matches the comparison directions in Dominates with both roots numbered.",
+   text="Exactness of Lengauer–Tarjan on all CFGs is not decided. Decided: the dominator tree is built on the final CFG (nothing reachable from the calls after buildDomTree writes Preds/Succs/Index/Blocks; optimizeBlocks precedes it; no exported function statically reaches a CFG mutator), dominance fields have a single writer family, and the pre/post numbering order in numberDomTree matches the comparison directions in Dominates with both roots numbered. Also decided: Lengauer–Tarjan's vertex orders — steps 2/3 visit the DFS numbering in decreasing order and link afterwards; step 4 resolves deferred immediate dominators in increasing DFS number.",
    ref="§4 C14",
    note="Weak: an error inside the algorithm (semidominator computation, bucket handling) is out of reach of these rules.",
    technique="field effect sets over the static call graph + ordering queries on SSA"),
@@ -90,17 +90,17 @@ CLAIMS = {
    note="Weak: the truth of each transfer rule (e.g. 'dereference implies non-nil') is assumed; instruction/builtin coverage is decided under C03.",
    technique="constant struct-literal evaluation from SSA stores + guard-edge/dominance rules + merge-table evaluation"),
  "C16": dict(
-   text="Narrow structural part only: diagnostics have one producer (report.Report) whose Pos/End come from one getRange call on the reported node, getRange/shortRange anchor start and end in the same node; every analysis.TextEdit literal takes Pos and End from one ranger (or End = Pos + length); the runner converts all six positions with the same //line-aware function and file set, each from its matching source field; fixes and related information are forwarded unchanged. Whether edits parse, type-check or preserve behaviour is not decided.",
+   text="Narrow structural part only: diagnostics have one producer (report.Report) whose Pos/End come from one getRange call on the reported node, getRange/shortRange anchor start and end in the same node; every analysis.TextEdit literal takes Pos and End from one ranger (or End = Pos + length); the runner converts all six positions with the same //line-aware function and file set, each from its matching source field; fixes and related information are forwarded unchanged. Whether edits parse, type-check or preserve behaviour is not decided. Also decided: the functions that render syntax with go/format hand the printer's output on verbatim (no line folding, trimming or replacing of text that is spliced into fixes).",
    ref="§4 C16",
    note="Manually built edit.Range{a, b} pairs (12 sites) and all replacement texts are outside these rules.",
    technique="who-may-construct/who-may-call rules + Pos/End value-origin pairing on SSA"),
  "C02": dict(
-   text="Decides structural necessary conditions of well-formed IR for all programs: Operands yields exactly the operand-holding fields of every instruction type (50 types, from the struct definitions); every removal of an instruction from a block detaches it from each operand's referrer list unless that operand is the lifted cell deleted in the same pass (per operand field); every locally created register instruction is typed on all paths before emit; control instructions are created only with the matching number of addEdge calls; φs get one slot per predecessor. Def-dominates-use and per-instruction typing of the builder's output are not decided.",
+   text="Decides structural necessary conditions of well-formed IR for all programs: Operands yields exactly the operand-holding fields of every instruction type (50 types, from the struct definitions); every removal of an instruction from a block detaches it from each operand's referrer list unless that operand is the lifted cell deleted in the same pass (per operand field); every locally created register instruction is typed on all paths before emit; control instructions are created only with the matching number of addEdge calls; φs get one slot per predecessor. Def-dominates-use and per-instruction typing of the builder's output are not decided. Also decided: a block saved from fn.currentBlock to be emitted into later (switch headers) cannot have been terminated by lowering in between (found and led to the repair of the malformed IR for `switch a && b {…}`).",
    ref="§4 C02",
    note="Two reviewed exemptions (jumpThreading's degenerate If→Jump, the ssa:deferstack call) are in the checker with reasons.",
    technique="struct-field vs. method agreement (go/types + SSA) and must-pass-through path rules"),
  "C01": dict(
-   text="Translation correctness over programs × inputs is not decided (that needs translation validation). Decided are structural necessary conditions for the lifted form to equal the naive form: Operands exposes every operand-holding field (lifting rewrites uses through it); lifting treats as liftable exactly Load, DebugRef and Store-into-the-cell users, with every other and every future kind falling into the unliftable default; renaming deletes only the lifted cell, stores to it and loads/debug refs of it.",
+   text="Translation correctness over programs × inputs is not decided (that needs translation validation). Decided are structural necessary conditions for the lifted form to equal the naive form: Operands exposes every operand-holding field (lifting rewrites uses through it); lifting treats as liftable exactly Load, DebugRef and Store-into-the-cell users, with every other and every future kind falling into the unliftable default; renaming deletes only the lifted cell, stores to it and loads/debug refs of it. Also decided: the 'location is already zero' flag that lets assign/compLit skip the clearing store of an empty or sparse composite literal is false, forwarded, or set next to the allocation of its target (a short variable declaration can re-declare existing variables).",
    ref="§4 C01",
    note="Weak: builder lowering, φ placement, liveness pruning and block optimisation are outside these rules; no oracle beyond the structural rules.",
    technique="type-switch case analysis with path-sensitive flag evaluation + guard-edge rules on SSA"),
